@@ -147,6 +147,14 @@ def writer_reader(ix, R):
                     attr, fac = amap[k]
                     vtxt = unparse(wk[k])
                     names = {x.attr for x in ast.walk(wk[k]) if isinstance(x, ast.Attribute)}
+                    # a value that comes out of a private helper new to the reviewed tree: what that helper reads
+                    from sa.helpers import known_functions as _kf
+                    for x in ast.walk(wk[k]):
+                        if isinstance(x, ast.Call) and isinstance(x.func, ast.Attribute) and isinstance(x.func.value, ast.Name) \
+                                and x.func.value.id == 'self':
+                            h_ = ix.lookup_method(c, x.func.attr)
+                            if h_ is not None and _kf() is not None and h_.site not in _kf():
+                                names |= {y.attr for y in ast.walk(h_.node) if isinstance(y, ast.Attribute)}
                     getters = {g for g in names if ix.trivial_getter(c, g) == attr}
                     if attr not in names and not getters and 'np.array(self.%s)' % attr not in vtxt:
                         why = 'key %r stores %s but the constructor keeps %r in self.%s' % (k, vtxt, k, attr)
